@@ -819,4 +819,68 @@ MUTANTS = [
                                 )));
                             }
                         };""")]},
+    {"id": "keep-vec-manual-counter", "kind": "preserving", "props": [], "occurrence": 1, "edits": [
+        (IMPLS, """                for (index, value) in seq.into_iter().enumerate() {
+                    let result =
+                        T::deserialize_from_value(value.into_value(), location.push_index(index));
+                    match result {
+                        Ok(value) => {
+                            set.insert(value);
+                        }
+                        Err(e) => {
+                            error = match E::merge(error, e, location.push_index(index)) {
+                                ControlFlow::Continue(e) => Some(e),
+                                ControlFlow::Break(e) => return Err(e),
+                            };
+                        }
+                    }
+                }""", """                let mut index = 0;
+                for value in seq.into_iter() {
+                    let result =
+                        T::deserialize_from_value(value.into_value(), location.push_index(index));
+                    match result {
+                        Ok(value) => {
+                            set.insert(value);
+                        }
+                        Err(e) => {
+                            error = match E::merge(error, e, location.push_index(index)) {
+                                ControlFlow::Continue(e) => Some(e),
+                                ControlFlow::Break(e) => return Err(e),
+                            };
+                        }
+                    }
+                    index += 1;
+                }""")]},
+    {"id": "c04-manual-counter-skips-on-error", "props": ["C04"], "occurrence": 1, "edits": [
+        (IMPLS, """                for (index, value) in seq.into_iter().enumerate() {
+                    let result =
+                        T::deserialize_from_value(value.into_value(), location.push_index(index));
+                    match result {
+                        Ok(value) => {
+                            set.insert(value);
+                        }
+                        Err(e) => {
+                            error = match E::merge(error, e, location.push_index(index)) {
+                                ControlFlow::Continue(e) => Some(e),
+                                ControlFlow::Break(e) => return Err(e),
+                            };
+                        }
+                    }
+                }""", """                let mut index = 0;
+                for value in seq.into_iter() {
+                    let result =
+                        T::deserialize_from_value(value.into_value(), location.push_index(index));
+                    match result {
+                        Ok(value) => {
+                            set.insert(value);
+                            index += 1;
+                        }
+                        Err(e) => {
+                            error = match E::merge(error, e, location.push_index(index)) {
+                                ControlFlow::Continue(e) => Some(e),
+                                ControlFlow::Break(e) => return Err(e),
+                            };
+                        }
+                    }
+                }""")]},
 ]
